@@ -16,11 +16,14 @@ def stripBdd (p : List Char) : Option (List Char) :=
   let suf := ['.', 'b', 'd', 'd']
   if p.length ≥ suf.length ∧ p.drop (p.length - suf.length) = suf then some (p.take (p.length - suf.length)) else none
 
+/-- a formula on one line: line breaks are written as blanks (repair D17) -/
+def oneLine (f : List Char) : List Char := f.map (fun c => if c = '\n' ∨ c = '\r' then ' ' else c)
+
 /-- the entries `build_result_archive` writes: one `<label>.bdd` per result, the model, the formula list -/
 def entries {α : Type} (ser : α → List Char) (results : List (List Char × α)) (model : List Char)
     (formulae : List (List Char)) : List (List Char × List Char) :=
   results.map (fun e => (e.1 ++ ['.', 'b', 'd', 'd'], ser e.2)) ++
-  [(['m', 'o', 'd', 'e', 'l', '.', 'a', 'e', 'o', 'n'], model), (['f', 'o', 'r', 'm', 'u', 'l', 'a', 'e', '.', 't', 'x', 't'], (formulae.map (· ++ ['\n'])).flatten)]
+  [(['m', 'o', 'd', 'e', 'l', '.', 'a', 'e', 'o', 'n'], model), (['f', 'o', 'r', 'm', 'u', 'l', 'a', 'e', '.', 't', 'x', 't'], (formulae.map (fun f => oneLine f ++ ['\n'])).flatten)]
 
 /-- `load_bdd_bundle`: the entries whose name ends in `.bdd`, keyed by the name without the suffix -/
 def load {α : Type} (deser : List Char → α) (es : List (List Char × List Char)) : List (List Char × α) :=
